@@ -284,7 +284,7 @@ funclit 1 in (dht *IpfsDHT) getValues(ctx context.Context, key string, stopQuery
   ghost at before call(GetValue)#0: assert($arg1 == p && $arg2 == key)
 
 func (dht *IpfsDHT) PutValue(ctx context.Context, key string, value []byte, opts ...routing.Option) (err error)
-  props C05 C06
+  props C05 C06 C03
   requires cfgOK(dht)
   ghostvar $valid bool = false
   ghostvar $old *recpb.Record = nil
@@ -298,11 +298,17 @@ func (dht *IpfsDHT) PutValue(ctx context.Context, key string, value []byte, opts
   ghost at call(Select): $sel0 = ($ret1 == nil && $ret0 == 0 && $arg0 == key && len($arg1) == 2 && $arg1[0] == value)
   ghost at before call(putLocal): assert($valid && $arg1 == key && $arg2 == rec); assert($old == nil || $eq || $sel0)
   ghost at call(putLocal): $putDone = ($ret0 == nil)
-  ghost at before call(GetClosestPeers): assert($putDone && $arg1 == key)
+  ghost at before call(GetClosestPeers): assert($putDone && $arg1 == key); assert(ctxRoot($arg0) == old(ctxRoot(ctx)))
+  ghost at go(func): assert(ctxRoot(ctx) == old(ctxRoot(ctx)))
 
+# C03 (cancellation reaches every RPC): the context handed to the PUT_VALUE
+# RPC is derived from the context this literal captured, which PutValue derived
+# from its caller's context (assert at the go statement in PutValue).
 funclit 1 in (dht *IpfsDHT) PutValue(ctx context.Context, key string, value []byte, opts ...routing.Option) (err error)
-  props C06
-  ghost at before call(PutValue): assert($arg1 == p && $arg2 == rec)
+  props C06 C03
+  ghostvar $root int = any
+  ghost at entry: $root = ctxRoot(ctx)
+  ghost at before call(PutValue): assert($arg1 == p && $arg2 == rec); assert(ctxRoot($arg0) == $root)
 
 funclit 1 in (dht *IpfsDHT) SearchValue(ctx context.Context, key string, opts ...routing.Option) (ch <-chan []byte, err error)
   props C06
